@@ -10,6 +10,9 @@
 (*   lengths / distances are integers in units of 1/4 (-2: not representable, *)
 (*   -9: the call raised); node results are node ids of g (0: None, -1: a     *)
 (*   node that is not in the tree, -9: raised)                                *)
+(*   every length of a case may carry a power-of-two scale (2^-40 .. 2^20);    *)
+(*   the harness divides it out exactly, so the integers here do not depend   *)
+(*   on it.  hist: the matrix object was compiled from another tree before.   *)
 (*   Tm / Mrca events carry their queries compactly (see JudgeTm, JudgeMrca)  *)
 (*   result trees of NJ / UPGMA: u (graph form) + rl = <<num, den>> per node  *)
 (*   (exact rational of the float, DESIGN 3.2) + rx (all floats were within   *)
@@ -36,6 +39,8 @@ CLcmFrom(q, i, acc) ==
 CommonDen(rl) == CLcmFrom(rl, 1, 4)
 ScaledW(rl, L) == TLCEval([x \in 1..Len(rl) |-> rl[x][1] * (L \div rl[x][2])])
 
+\* matrix objects with a history: compiled from another tree first, then re-compiled from the tree of the event
+Hs(e) == IF "hist" \in DOMAIN e /\ e.hist # "fresh" THEN "/recompiled_after_" \o e.hist ELSE ""
 Idx(T) == 1..Len(T)
 TabOk(obs, T, exp) == \A i, j \in Idx(T) : obs[i][j] = exp[<<T[i], T[j]>>]
 BagOfTab(D, P) == [v \in {D[pr] : pr \in P} |-> Cardinality({pr \in P : D[pr] = v})]
@@ -50,41 +55,41 @@ JudgeSub(s, D, ST, api) ==
       \o Chk(s.mntdu[3] /\ RatEqualsMean(s.mntdu[1], s.mntdu[2], SumNearest(ST, S), Cardinality(S), 1), "C14.MeanNearestTaxon", api \o ":edges")
 
 JudgePdm(e) ==
-    LET g == e.g  T == e.tx
+    LET g == e.g  T == e.tx  h == Hs(e)
         D == DistTab(g, W0(g))  ST == StepTab(g)  MT == MrcaTab(g)
         P == UPairs(TreeTx(g))
     IN
     IF ~TaxaOnLeavesOnly(g) \/ SeqToSet(T) # TreeTx(g) \/ Len(T) # Cardinality(TreeTx(g)) THEN V("C14.HarnessInput", "pdm")
-    ELSE Chk(e.raised = "", "C14.PatristicDistance", "pdm:raised:" \o e.raised)
-      \o Chk(TabOk(e.pd, T, D), "C14.PatristicDistance", "pdm")
-      \o Chk(TabOk(e.call, T, D), "C14.PatristicDistance", "pdm.__call__")
-      \o Chk(TabOk(e.pc, T, ST), "C14.PathEdgeCount", "pdm")
-      \o Chk(Len(T) < 2 \/ TabOk(e.mr, T, MT), "C14.PairMRCA", "pdm")        \* a single leaf: no pair of leaf taxa
-      \o Chk(\A i, j \in Idx(T) : e.pd[i][j] = e.pd[j][i] /\ e.pc[i][j] = e.pc[j][i] /\ e.mr[i][j] = e.mr[j][i], "C14.Symmetric", "pdm")
-      \o Chk(\A i \in Idx(T) : e.pd[i][i] = 0 /\ e.pc[i][i] = 0, "C14.ZeroSelfDistance", "pdm")
+    ELSE Chk(e.raised = "", "C14.PatristicDistance", "pdm" \o h \o ":raised:" \o e.raised)
+      \o Chk(TabOk(e.pd, T, D), "C14.PatristicDistance", "pdm" \o h)
+      \o Chk(TabOk(e.call, T, D), "C14.PatristicDistance", "pdm.__call__" \o h)
+      \o Chk(TabOk(e.pc, T, ST), "C14.PathEdgeCount", "pdm" \o h)
+      \o Chk(Len(T) < 2 \/ TabOk(e.mr, T, MT), "C14.PairMRCA", "pdm" \o h)        \* a single leaf: no pair of leaf taxa
+      \o Chk(\A i, j \in Idx(T) : e.pd[i][j] = e.pd[j][i] /\ e.pc[i][j] = e.pc[j][i] /\ e.mr[i][j] = e.mr[j][i], "C14.Symmetric", "pdm" \o h)
+      \o Chk(\A i \in Idx(T) : e.pd[i][i] = 0 /\ e.pc[i][i] = 0, "C14.ZeroSelfDistance", "pdm" \o h)
       \o Chk(SeqToSet(e.mapped) \subseteq TreeTx(g) /\ (Cardinality(TreeTx(g)) >= 2 => SeqToSet(e.mapped) = TreeTx(g))
-               /\ Len(e.mapped) = Cardinality(SeqToSet(e.mapped)), "C14.PatristicDistance", "pdm:taxa_covered")
-      \o Chk(BagOfSeq(e.dists) = BagOfTab(D, P), "C14.PatristicDistance", "pdm.distances")
-      \o Chk(BagOfSeq(e.distsu) = BagOfTab(ST, P), "C14.PathEdgeCount", "pdm.distances")
-      \o Flatten([i \in 1..Len(e.subs) |-> JudgeSub(e.subs[i], D, ST, IF e.subs[i].all THEN "all" ELSE "filter_fn")])
+               /\ Len(e.mapped) = Cardinality(SeqToSet(e.mapped)), "C14.PatristicDistance", "pdm" \o h \o ":taxa_covered")
+      \o Chk(BagOfSeq(e.dists) = BagOfTab(D, P), "C14.PatristicDistance", "pdm.distances" \o h)
+      \o Chk(BagOfSeq(e.distsu) = BagOfTab(ST, P), "C14.PathEdgeCount", "pdm.distances" \o h)
+      \o Flatten([i \in 1..Len(e.subs) |-> JudgeSub(e.subs[i], D, ST, (IF e.subs[i].all THEN "all" ELSE "filter_fn") \o h)])
 
 \* ------------------------------------------------------------------ node_distance_matrix()
 JudgeNdm(e) ==
-    LET g == e.g
+    LET g == e.g  h == Hs(e)
         D == NodeDistTab(g, W0(g))  ST == NodeStepTab(g)  MT == NodeMrcaTab(g)
         N == Nodes(g)
     IN
-    Chk(e.raised = "", "C14.PatristicDistance", "ndm:raised:" \o e.raised)
-      \o Chk(\A a, b \in N : e.pd[a][b] = D[<<a, b>>], "C14.PatristicDistance", "ndm")
-      \o Chk(\A a, b \in N : e.pc[a][b] = ST[<<a, b>>], "C14.PathEdgeCount", "ndm")
-      \o Chk(\A a, b \in N : e.mr[a][b] = MT[<<a, b>>], "C14.PairMRCA", "ndm")
+    Chk(e.raised = "", "C14.PatristicDistance", "ndm" \o h \o ":raised:" \o e.raised)
+      \o Chk(\A a, b \in N : e.pd[a][b] = D[<<a, b>>], "C14.PatristicDistance", "ndm" \o h)
+      \o Chk(\A a, b \in N : e.pc[a][b] = ST[<<a, b>>], "C14.PathEdgeCount", "ndm" \o h)
+      \o Chk(\A a, b \in N : e.mr[a][b] = MT[<<a, b>>], "C14.PairMRCA", "ndm" \o h)
 
 \* ------------------------------------------------------------------ matrix read back from CSV
 JudgeCsv(e) ==
     LET g == e.g  T == e.tx  D == DistTab(g, W0(g)) IN
     IF ~TaxaOnLeavesOnly(g) \/ ~(SeqToSet(T) \subseteq TreeTx(g)) THEN V("C14.HarnessInput", "csv")
-    ELSE Chk(e.raised = "", "C14.PatristicDistance", "csv:raised:" \o e.raised)
-      \o Chk(TabOk(e.pd, T, D), "C14.PatristicDistance", "csv")
+    ELSE Chk(e.raised = "", "C14.PatristicDistance", "csv" \o Hs(e) \o ":raised:" \o e.raised)
+      \o Chk(TabOk(e.pd, T, D), "C14.PatristicDistance", "csv" \o Hs(e))
 
 \* ------------------------------------------------------------------ treemeasure.patristic_distance
 \* q[i] = <<taxon code a, taxon code b, value>>; errs = <<<<index into q, exception name>>, ...>>
@@ -125,7 +130,7 @@ HasPolytomy(t) == \E x \in Nodes(t) : Len(t.kids[x]) + (IF t.par[x] = 0 THEN 0 E
 SrcW(e) == IF e.src = "tree_steps" THEN TLCEval([x \in 1..e.g.n |-> 4]) ELSE W0(e.g)
 JudgeNj(e) ==
     LET t == e.g  u == e.u  wt == SrcW(e)
-        cls == e.src \o (IF HasPolytomy(t) THEN "/polytomy" ELSE "")
+        cls == e.src \o Hs(e) \o (IF HasPolytomy(t) THEN "/polytomy" ELSE "")
     IN
     IF ~NJAdmissibleW(t, wt) THEN None                  \* outside the precondition of the clause: not judged
     ELSE IF e.raised # "" THEN V("C14.NJTopology", cls \o ":raised:" \o e.raised)
@@ -140,7 +145,7 @@ JudgeNj(e) ==
 JudgeUpgma(e) ==
     LET t == e.g  u == e.u  wt == SrcW(e)
         ultra == UPGMAAdmissibleW(t, wt)
-        cls == e.src \o (IF ultra THEN "/ultrametric" ELSE "/additive")
+        cls == e.src \o Hs(e) \o (IF ultra THEN "/ultrametric" ELSE "/additive")
     IN
     IF ~TaxaOnLeavesOnly(t) \/ Cardinality(Leaves(t)) < 2 THEN None
     ELSE IF ~ultra /\ Cardinality(Leaves(t)) > 8 THEN None       \* denominators of mean heights would exceed DenLimit
